@@ -640,7 +640,15 @@ def judge_schedule(res, sysd, r):
            "after another in a second copy, and diff the two directories; or: harness/check.py C20 --replay <this file>"
            % sysd["main"])
     if any(rc != 0 for rc in r["rc_s"]):
-        raise RuntimeError("sequential reference run failed: %r %r" % (r["rc_s"], r["err_s"]))
+        # every command of a schedule reads only files of the prepared directory and names its own outputs, so each succeeds when
+        # run alone there (the footprint cases run them alone); failing AFTER the others means an earlier run removed or changed
+        # something that is not its own
+        bad = [k for k, rc in enumerate(r["rc_s"]) if rc != 0]
+        res.violations.append({"what": "a command fails when it is run after the other commands of the schedule (one after another): "
+                                       "an earlier run removed or changed a file that is not one of its own outputs",
+                               "input": inp, "observed": {"failing": [cmdline(cmds[k]) for k in bad], "stderr": [r["err_s"][k][-300:] for k in bad][:3]},
+                               "sig": "C20:sequential-interference", "cmd": how})
+        return
     if r["rc_c"] != r["rc_s"]:
         res.violations.append({"what": "a process failed when run concurrently but not when run alone", "input": inp,
                                "observed": {"exit_codes": r["rc_c"], "stderr": [e for e in r["err_c"] if "Error" in e or "rror" in e][:3]},
